@@ -276,10 +276,10 @@ theorem owed_noise (id mc : Nat) (r : Rec) :
   by_cases hv : RT.valid r.rtype.toNat = true
   · by_cases hg : r.rtype.toNat = 9
     · by_cases h0 : r.id = 0
-      · simp [hv, hg, h0, RT.getValues, RT.beginRequest, stateO]
-      · simp [hv, hg, h0, RT.getValues, RT.beginRequest, stateO]
+      · simp [hg, h0, RT.getValues, RT.beginRequest, stateO, RT.valid]
+      · simp [hg, h0, RT.getValues, RT.beginRequest, stateO, RT.valid]
     · by_cases hb : r.rtype.toNat = 1
-      · by_cases hi : r.id = id <;> simp [hv, hg, hb, hi, RT.getValues, RT.beginRequest, stateO]
+      · by_cases hi : r.id = id <;> simp [hb, hi, RT.getValues, RT.beginRequest, stateO, RT.valid]
       · simp [hv, hg, hb, RT.getValues, RT.beginRequest, stateO]
   · simp [hv, stateO]
 
@@ -304,7 +304,829 @@ theorem parseHead_noise {p : Parser} {r : Rec} {rest : Bytes} {id : Nat} (hr : S
   simp only [parseHead, hraw, hdr, List.cons_append, List.nil_append]
   rw [fromBytes8]
   simp only [be16_toBe16 h1, be16_toBe16 h2, toNat_ofNat_lt h3]
-  trace_state
-  sorry
+  rw [if_neg (by decide)]
+  by_cases hv : RT.valid r.rtype.toNat = true
+  · have hin : (RT.isInputStream r.rtype.toNat && r.id == p.request.id) = false := by
+      rw [hid]
+      cases hi : RT.isInputStream r.rtype.toNat with
+      | false => rfl
+      | true =>
+        simp only [RT.isInputStream, Bool.or_eq_true, beq_iff_eq] at hi
+        simp only [Bool.true_and, beq_eq_false_iff_ne, ne_eq]
+        intro he
+        exact hn ⟨he, by simp only [RT.stdin, RT.data]; omega⟩
+    have hab : (r.rtype.toNat == RT.abortRequest && r.id == p.request.id) = false := by
+      rw [hid]
+      cases ha : r.rtype.toNat == RT.abortRequest with
+      | false => rfl
+      | true =>
+        simp only [beq_iff_eq] at ha
+        simp only [Bool.true_and, beq_eq_false_iff_ne, ne_eq]
+        intro he
+        exact hn ⟨he, Or.inr (Or.inr ha)⟩
+    simp only [hv, Bool.not_true, Bool.false_eq_true, if_false, hin, hab]
+    by_cases hb : (r.rtype.toNat == RT.beginRequest && r.id != p.request.id) = true
+    · rw [if_pos hb]
+      have hng : ¬ r.rtype.toNat = 9 := by
+        simp only [Bool.and_eq_true, beq_iff_eq, RT.beginRequest] at hb; omega
+      refine ⟨_, _, rfl, rfl, rfl, rfl, ?_, ?_, rfl, rfl, rfl, rfl, rfl, rfl⟩
+      · simp [noiseState, RT.getValues, hng]
+      · rw [hid] at hb; simp [headOut, hv, hb]
+    · rw [if_neg hb]
+      have ho : headOut id r = [] := by
+        rw [hid] at hb; simp [headOut, hv, hb]
+      split
+      · rename_i hg
+        refine ⟨_, _, rfl, rfl, rfl, rfl, ?_, ?_, rfl, rfl, rfl, rfl, rfl, rfl⟩
+        · simp only [RecordHeader.isManagement, Bool.and_eq_true, beq_iff_eq] at hg
+          simp [noiseState, hg.1, hg.2.2, RT.valid, RT.getValues]
+        · rw [ho]; simp
+      · rename_i hg
+        refine ⟨_, _, rfl, rfl, rfl, rfl, ?_, ?_, rfl, rfl, rfl, rfl, rfl, rfl⟩
+        · simp only [noiseState]
+          rw [if_neg]
+          intro hh
+          apply hg
+          simp only [Bool.and_eq_true, beq_iff_eq] at hh
+          simp [RecordHeader.isManagement, hh.1.2, hh.2, RT.getValues, RT.isManagement]
+        · rw [ho]; simp
+  · have hv' : RT.valid r.rtype.toNat = false := by simpa using hv
+    simp only [hv', Bool.not_false, if_true]
+    refine ⟨_, _, rfl, rfl, rfl, rfl, ?_, ?_, rfl, rfl, rfl, rfl, rfl, rfl⟩
+    · simp [noiseState, hv']
+    · simp [headOut, hv']
+
+/-- **Record classification, stream data.**  A non-empty record of the active stream of this
+request: header consumed, state `Stream`, nothing queued. -/
+theorem parseHead_data {p : Parser} {r : Rec} {rest : Bytes} {s : Nat} (hr : r.WF)
+    (ht : r.rtype.toNat = s) (hid : r.id = p.request.id) (hne : 0 < r.content.length)
+    (hs : p.stream = some s) (hmem : s ∈ inputStreams p.request.role)
+    (hraw : p.raw = hdr r ++ rest) (dest : Option Nat) (res : Status) :
+    HeadCont p dest res rest r.content.length r.pad.length .stream [] (parseHead p dest res) := by
+  obtain ⟨h1, h2, h3⟩ := hr
+  have hin := mem_inputStreams_isInput hmem
+  have hv : RT.valid s = true := by
+    rcases mem_inputStreams_cases hmem with rfl | rfl <;> rfl
+  simp only [parseHead, hraw, hdr, List.cons_append, List.nil_append]
+  rw [fromBytes8]
+  simp only [be16_toBe16 h1, be16_toBe16 h2, toNat_ofNat_lt h3]
+  rw [if_neg (by decide)]
+  have hcmp : cmpInputStreams p.request.role s p.stream = some .eq := by
+    rw [hs]; exact (cmp_eq_iff _ hin hin).2 rfl
+  have hc0 : (r.content.length != 0) = true := by rw [bne_iff_ne]; omega
+  simp only [ht, hv, Bool.not_true, Bool.false_eq_true, if_false, hin, hid, BEq.rfl, Bool.and_self,
+    if_true, hcmp, hc0]
+  exact ⟨_, _, rfl, rfl, rfl, rfl, rfl, by simp, rfl, rfl, rfl, rfl, rfl, rfl⟩
+
+/-- **Record classification, end mark.**  The stream's empty record, or a record of a later
+stream of this request, is held back. -/
+theorem heldBack_of_end {p : Parser} {e : Rec} {rest : Bytes} {s : Nat} (hr : e.WF)
+    (hid : e.id = p.request.id) (hs : p.stream = some s) (hmem : s ∈ inputStreams p.request.role)
+    (hk : (e.rtype.toNat = s ∧ e.content = []) ∨ Later p.request.role (some s) e.rtype.toNat)
+    (hraw : p.raw = hdr e ++ rest) : HeldBack p := by
+  obtain ⟨h1, h2, h3⟩ := hr
+  have hin := mem_inputStreams_isInput hmem
+  have hin' : RT.isInputStream e.rtype.toNat = true := by
+    rcases hk with ⟨ht, -⟩ | hl
+    · rw [ht]; exact hin
+    · exact mem_inputStreams_isInput (mem_of_Later hl)
+  have hv : RT.valid e.rtype.toNat = true := by
+    simp only [RT.isInputStream, Bool.or_eq_true, beq_iff_eq] at hin'
+    rcases hin' with h | h <;> rw [h] <;> rfl
+  refine ⟨1, e.rtype, UInt8.ofNat (e.id / 256), UInt8.ofNat e.id, UInt8.ofNat (e.content.length / 256),
+    UInt8.ofNat e.content.length, UInt8.ofNat e.pad.length, e.reserved, rest,
+    { rtype := e.rtype.toNat, requestId := e.id, contentLength := e.content.length,
+      paddingLength := e.pad.length }, hraw, ?_, hin', hid, ?_⟩
+  · rw [fromBytes8, if_neg (by decide)]
+    simp only [be16_toBe16 h1, be16_toBe16 h2, toNat_ofNat_lt h3, hv, Bool.not_true,
+      Bool.false_eq_true, if_false]
+  · rw [hs]
+    rcases hk with ⟨ht, hc⟩ | hl
+    · left
+      simp only [ht, hc, List.length_nil, and_true]
+      exact (cmp_eq_iff _ hin hin).2 rfl
+    · right
+      exact (cmp_gt_iff _ hin' hin).2 hl
+
+theorem parseHead_short {p : Parser} (h : p.raw.length < 8) (dest : Option Nat) (res : Status) :
+    parseHead p dest res = .stop p res := by
+  unfold parseHead
+  split
+  · rename_i hraw
+    rw [hraw] at h; simp only [List.length_cons] at h; omega
+  · rfl
+
+/-! ## The invariant of a `parse` call -/
+
+/-- Where stream data goes during a call: `dest` (`b = true`) or the internal buffer. -/
+def got (b : Bool) (p : Parser) (res : Status) : Bytes := if b then res.delivered else p.parsed
+
+/-- `Sim` plus the two conserved quantities: `C` = delivered so far ++ still to be delivered,
+`O` = replies generated so far ++ still owed; `stream_end` is raised only when nothing remains, the
+parser standing at the end mark. -/
+def Inv (E : Env) (fut : Bytes) (b : Bool) (C O : Bytes) (p : Parser) (res : Status) : Prop :=
+  ∃ remC remO, Sim E p fut remC remO ∧ got b p res ++ remC = C ∧ p.output ++ remO = O ∧
+    (res.streamEnd = true → remC = [] ∧ remO = [] ∧ p.pay = 0 ∧ p.pad = 0 ∧ p.raw ++ fut = E.tail)
+
+theorem Sim.of_core {E p p' fut remC remO remC' remO'} (h : Sim E p fut remC remO)
+    (e1 : p'.request = p.request) (e2 : p'.stream = p.stream) (e3 : p'.maxConns = p.maxConns)
+    (hc : SimCore E p'.raw p'.pay p'.pad p'.state fut remC' remO') : Sim E p' fut remC' remO' :=
+  ⟨by rw [e1]; exact h.id, by rw [e1]; exact h.role, by rw [e2]; exact h.strm,
+   by rw [e3]; exact h.mc, h.mem, h.endm, hc⟩
+
+theorem Inv.step {E fut b C O} {p p' : Parser} {res res' : Status}
+    {remC remO remC' remO' d o : Bytes}
+    (hC : got b p res ++ remC = C) (hO : p.output ++ remO = O)
+    (hne : ¬ res.streamEnd = true)
+    (hs : Sim E p' fut remC' remO') (hg : got b p' res' = got b p res ++ d) (hrc : d ++ remC' = remC)
+    (ho : p'.output = p.output ++ o) (hro : o ++ remO' = remO)
+    (hse' : res'.streamEnd = res.streamEnd) : Inv E fut b C O p' res' := by
+  refine ⟨remC', remO', hs, ?_, ?_, ?_⟩
+  · rw [hg, List.append_assoc, hrc]; exact hC
+  · rw [ho, List.append_assoc, hro]; exact hO
+  · intro h
+    rw [hse'] at h
+    exact absurd h hne
+
+/-- With nothing left to feed, a call stops before the end mark only because `dest` is full. -/
+def Live (E : Env) (fut : Bytes) (dest : Option Nat) (res r' : Status) : Prop :=
+  Full E fut → r'.streamEnd = true ∨
+    (dest.isSome = true ∧ r'.delivered.length = res.delivered.length + dest.getD 0)
+
+/-- What one step of the loop body keeps. -/
+def StepInv (E : Env) (fut C O : Bytes) (dest : Option Nat) (res : Status) : Iter → Prop
+  | .cont p' _ r' => Inv E fut dest.isSome C O p' r'
+  | .stop p' r' => Inv E fut dest.isSome C O p' r' ∧ Live E fut dest res r'
+  | .err _ _ => False
+  | .panic _ => False
+
+theorem StepInv.ite {E fut C O dest res} {cnd : Prop} [Decidable cnd] {p2 : Parser}
+    {d2 : Option Nat} {r2 : Status} (hI : Inv E fut dest.isSome C O p2 r2)
+    (hL : ¬ cnd → Live E fut dest res r2) :
+    StepInv E fut C O dest res (if cnd then .cont p2 d2 r2 else .stop p2 r2) := by
+  split
+  · exact hI
+  · rename_i hc; exact ⟨hI, hL hc⟩
+
+/-- **`parse_payload` keeps the invariant.** -/
+theorem parsePayload_inv {E fut C O} (p : Parser) (dest : Option Nat) (res : Status)
+    (h : Inv E fut dest.isSome C O p res) (hpay : 0 < p.pay) :
+    StepInv E fut C O dest res (parsePayload p dest res) := by
+  obtain ⟨remC, remO, hs, hC, hO, hse⟩ := h
+  have hcore := hs.core
+  have hne : ¬ res.streamEnd = true := fun h => by have := (hse h).2.2.1; omega
+  unfold parsePayload
+  cases hst : p.state with
+  | stream =>
+    rw [hst] at hcore
+    cases dest with
+    | some cap =>
+      simp only []
+      split
+      · exfalso; omega
+      · have hk1 : min (min p.pay p.raw.length) cap ≤ p.pay := by omega
+        have hk2 : min (min p.pay p.raw.length) cap ≤ p.raw.length := by omega
+        obtain ⟨hc', hrc⟩ := hcore.adv_stream hk1 hk2
+        refine StepInv.ite ?_ ?_
+        · refine Inv.step hC hO hne (d := p.raw.take (min (min p.pay p.raw.length) cap)) (o := [])
+            (hs.of_core rfl rfl rfl ?_) ?_ hrc ?_ rfl rfl
+          · simp only [hst]; exact hc'
+          · simp only [got, Option.isSome_some, if_true, List.take_take]
+            rw [Nat.min_eq_left (Nat.min_le_left _ _)]
+          · simp
+        · intro hc hf
+          have hfl := hcore.full_len hf
+          right
+          refine ⟨rfl, ?_⟩
+          simp only [Bool.and_eq_true, beq_iff_eq, decide_eq_true_eq] at hc
+          simp only [List.length_append, List.length_take, Option.getD_some]
+          omega
+    | none =>
+      simp only []
+      split
+      · exfalso; omega
+      · have hk1 : min p.pay p.raw.length ≤ p.pay := by omega
+        have hk2 : min p.pay p.raw.length ≤ p.raw.length := by omega
+        obtain ⟨hc', hrc⟩ := hcore.adv_stream hk1 hk2
+        refine StepInv.ite ?_ ?_
+        · refine Inv.step hC hO hne (d := p.raw.take (min p.pay p.raw.length)) (o := [])
+            (hs.of_core rfl rfl rfl ?_) ?_ hrc ?_ rfl rfl
+          · exact hc'
+          · simp [got]
+          · simp
+        · intro hc hf
+          have hfl := hcore.full_len hf
+          exfalso
+          simp only [Bool.and_eq_true, beq_iff_eq, decide_eq_true_eq] at hc
+          omega
+  | skip =>
+    rw [hst] at hcore
+    simp only []
+    split
+    · exfalso; omega
+    · have hk1 : min p.pay p.raw.length ≤ p.pay := by omega
+      have hk2 : min p.pay p.raw.length ≤ p.raw.length := by omega
+      have hc' := hcore.adv_skip hk1 hk2
+      refine StepInv.ite ?_ ?_
+      · refine Inv.step hC hO hne (d := []) (o := [])
+          (hs.of_core rfl rfl rfl ?_) ?_ rfl ?_ rfl rfl
+        · simp only [hst]; exact hc'
+        · cases dest <;> simp [got]
+        · simp
+      · intro hc hf
+        have hfl := hcore.full_len hf
+        exfalso
+        simp only [Bool.and_eq_true, beq_iff_eq, decide_eq_true_eq] at hc
+        omega
+  | values v =>
+    rw [hst] at hcore
+    by_cases hlt : p.raw.length < p.pay
+    · have hmin : min p.pay p.raw.length = p.raw.length := by omega
+      obtain ⟨hc', hdrop⟩ := hcore.values_more hlt
+      have hrest := nvall_rest_le p.raw
+      simp only [hlt, if_true, hmin, List.take_length]
+      split
+      · exfalso; omega
+      · split
+        · rename_i hc
+          exfalso
+          simp only [Bool.and_eq_true, beq_iff_eq, decide_eq_true_eq] at hc
+          omega
+        · refine ⟨Inv.step hC hO hne (d := []) (o := [])
+            (hs.of_core rfl rfl rfl ?_) ?_ rfl ?_ rfl rfl, ?_⟩
+          · simp only [hdrop]; exact hc'
+          · cases dest <;> simp [got]
+          · simp
+          · intro hf
+            have hfl := hcore.full_len hf
+            omega
+    · obtain ⟨remO', hc', hro⟩ := hcore.values_done hpay (by omega)
+        (Vars.extend v (NV.all (p.raw.take p.pay)).1)
+      have hmin : min p.pay p.raw.length = p.pay := by omega
+      simp only [hlt, if_false, hmin]
+      split
+      · exfalso; omega
+      · refine StepInv.ite ?_ ?_
+        · refine Inv.step hC hO hne (d := []) (remO' := remO')
+            (o := Vars.responseRecord (Vars.extend v (NV.all (p.raw.take p.pay)).1) p.maxConns)
+            (hs.of_core rfl rfl rfl ?_) ?_ rfl rfl ?_ rfl
+          · simp only [Nat.sub_self]; exact hc'
+          · cases dest <;> simp [got]
+          · rw [hs.mc]; exact hro
+        · intro hc hf
+          have hfl := hcore.full_len hf
+          exfalso
+          simp only [Bool.and_eq_true, beq_iff_eq, decide_eq_true_eq] at hc
+          omega
+
+/-! ## `parse_head` keeps the invariant -/
+
+theorem owedStream_cons (id s mc : Nat) (r : Rec) (rs : List Rec) :
+    owedStream id s mc (r :: rs) =
+      (if r.rtype.toNat == s && r.id == id then [] else owed (some id) mc r) ++
+        owedStream id s mc rs := by
+  simp [owedStream]
+
+theorem owedStream_append (id s mc : Nat) (a b : List Rec) :
+    owedStream id s mc (a ++ b) = owedStream id s mc a ++ owedStream id s mc b := by
+  simp [owedStream]
+
+/-- What can stand at a record boundary. -/
+inductive HeadCase (E : Env) (raw fut remC remO : Bytes) : Prop
+  | endm (hw : raw ++ fut = E.tail) (hc : remC = []) (ho : remO = [])
+  | noise (r : Rec) (rs : List Rec) (ct : Bytes) (hn : StreamNoise E.id r) (hb : Body E.id E.s ct rs)
+      (hw : raw ++ fut = r.ser ++ (serAll rs ++ E.tail)) (hc : remC = ct)
+      (ho : remO = owed (some E.id) E.mc r ++ owedStream E.id E.s E.mc rs)
+  | chunk (r : Rec) (rs : List Rec) (ct : Bytes) (hr : r.WF) (ht : r.rtype.toNat = E.s)
+      (hid : r.id = E.id) (hne : 0 < r.content.length) (hb : Body E.id E.s ct rs)
+      (hw : raw ++ fut = r.ser ++ (serAll rs ++ E.tail)) (hc : remC = r.content ++ ct)
+      (ho : remO = owedStream E.id E.s E.mc rs)
+
+theorem SimCore.head_cases {E raw st fut remC remO} (h : SimCore E raw 0 0 st fut remC remO)
+    (hs : E.s = 5 ∨ E.s = 8) (hid : E.id < 65536) : HeadCase E raw fut remC remO := by
+  obtain ⟨c, pd, rs, ct, hb, hc, hpd, hw, hrc, hro⟩ := h
+  have h1 : c = [] := List.length_eq_zero_iff.1 hc
+  have h2 : pd = [] := List.length_eq_zero_iff.1 hpd
+  subst h1 h2
+  rw [stateC_nil] at hrc
+  rw [stateO_nil] at hro
+  simp only [List.nil_append] at hw hrc hro
+  have hsn : (UInt8.ofNat E.s).toNat = E.s := toNat_ofNat_lt (by omega)
+  cases hb with
+  | nil => exact .endm (by simpa [serAll] using hw) hrc (by simpa [owedStream] using hro)
+  | noise r hn t =>
+    rw [serAll_cons, List.append_assoc] at hw
+    refine .noise r _ _ hn t hw hrc ?_
+    rw [hro, owedStream_cons, if_neg]
+    intro hh
+    simp only [Bool.and_eq_true, beq_iff_eq] at hh
+    exact hn.2 ⟨hh.2, by simp only [RT.stdin, RT.data]; omega⟩
+  | chunk c pad res hc' hp t =>
+    rw [serAll_cons, List.append_assoc] at hw
+    refine .chunk _ _ _ ⟨hid, hc'.2, hp⟩ hsn rfl hc'.1 t hw hrc ?_
+    rw [hro, owedStream_cons, if_pos]
+    · rfl
+    · simp [hsn]
+
+theorem stateC_noise (r : Rec) (c : Bytes) : stateC (noiseState r) c = [] := by
+  unfold noiseState; split <;> rfl
+
+theorem EndMark.id_lt {id role s : Nat} {tail : Bytes} (h : EndMark id role s tail) : id < 65536 := by
+  obtain ⟨e, rest, -, hwf, hid, -⟩ := h
+  rw [← hid]; exact hwf.1
+
+/-- **`parse_head` keeps the invariant**; `stream_end` is raised exactly at the end mark. -/
+theorem parseHead_inv {E fut C O} (q : Parser) (d : Option Nat) (r : Status) (hpay : q.pay = 0)
+    (hpad : q.pad = 0) (h : Inv E fut d.isSome C O q r) :
+    StepInv E fut C O d r (parseHead q d r) := by
+  obtain ⟨remC, remO, hs, hC, hO, hse⟩ := h
+  have hcore := hs.core
+  rw [hpay, hpad] at hcore
+  by_cases hlen : q.raw.length < 8
+  · rw [parseHead_short hlen]
+    refine ⟨⟨remC, remO, hs, hC, hO, hse⟩, fun hf => ?_⟩
+    have := hcore.full_len hf
+    omega
+  · have hmem : E.s ∈ inputStreams q.request.role := by rw [hs.role]; exact hs.mem
+    rcases hcore.head_cases (mem_inputStreams_cases hs.mem) hs.endm.id_lt with
+      ⟨hw, hc, ho⟩ | ⟨rc, rs, ct, hn, hb, hw, hc, ho⟩ | ⟨rc, rs, ct, hr, ht, hid, hcl, hb, hw, hc, ho⟩
+    · -- the end mark
+      obtain ⟨e, rest, htail, hwf, heid, hk⟩ := hs.endm
+      have hw0 := hw
+      rw [htail] at hw
+      obtain ⟨hraw, -⟩ := raw_hdr hw (by omega)
+      have hheld : HeldBack q :=
+        heldBack_of_end hwf (by rw [heid, hs.id]) hs.strm hmem (by rw [hs.role]; exact hk) hraw
+      rw [parseHead_held hheld]
+      exact ⟨⟨remC, remO, hs, hC, hO, fun _ => ⟨hc, ho, hpay, hpad, hw0⟩⟩, fun _ => Or.inl rfl⟩
+    · -- a noise record
+      have hne : ¬ r.streamEnd = true := fun h => by
+        have h5 := (hse h).2.2.2.2
+        rw [hw] at h5
+        have := congrArg List.length h5
+        simp only [List.length_append, ser_length] at this
+        omega
+      obtain ⟨hraw, hdrop⟩ := raw_hdr hw (by omega)
+      obtain ⟨p', r', hit, e1, e2, e3, e4, e5, e6, e7, e8, e9, e10, e11⟩ :=
+        parseHead_noise hn hs.id hraw d r
+      rw [hit]
+      refine Inv.step hC hO hne (d := []) (o := headOut E.id rc)
+        (remC' := stateC (noiseState rc) rc.content ++ ct)
+        (remO' := stateO E.mc (noiseState rc) rc.content ++ owedStream E.id E.s E.mc rs)
+        (hs.of_core e7 e8 e9 ?_) ?_ ?_ e5 ?_ e11
+      · rw [e1, e2, e3, e4]
+        exact ⟨rc.content, rc.pad, rs, ct, hb, rfl, rfl, hdrop, rfl, rfl⟩
+      · simp [got, e6, e10]
+      · rw [stateC_noise, hc]; rfl
+      · rw [ho, owed_noise, List.append_assoc]
+    · -- a data record of the active stream
+      have hne : ¬ r.streamEnd = true := fun h => by
+        have h5 := (hse h).2.2.2.2
+        rw [hw] at h5
+        have := congrArg List.length h5
+        simp only [List.length_append, ser_length] at this
+        omega
+      obtain ⟨hraw, hdrop⟩ := raw_hdr hw (by omega)
+      obtain ⟨p', r', hit, e1, e2, e3, e4, e5, e6, e7, e8, e9, e10, e11⟩ :=
+        parseHead_data hr ht (by rw [hid, hs.id]) hcl hs.strm hmem hraw d r
+      rw [hit]
+      refine Inv.step hC hO hne (d := []) (o := [])
+        (remC' := stateC .stream rc.content ++ ct)
+        (remO' := stateO E.mc .stream rc.content ++ owedStream E.id E.s E.mc rs)
+        (hs.of_core e7 e8 e9 ?_) ?_ ?_ e5 ?_ e11
+      · rw [e1, e2, e3, e4]
+        exact ⟨rc.content, rc.pad, rs, ct, hb, rfl, rfl, hdrop, rfl, rfl⟩
+      · simp [got, e6, e10]
+      · rw [hc]; rfl
+      · rw [ho]; rfl
+
+/-! ## Padding, one iteration, the loop -/
+
+theorem Live.trans {E fut} {p q : Parser} {dest d : Option Nat} {res r r' : Status}
+    (hrel : Rel p dest res q d r) (h : Live E fut d r r') : Live E fut dest res r' := by
+  intro hf
+  rcases h hf with h | ⟨h1, h2⟩
+  · exact Or.inl h
+  · have := hrel.dcap
+    exact Or.inr ⟨by rw [← hrel.dsome]; exact h1, by omega⟩
+
+theorem StepInv.trans {E fut C O} {p q : Parser} {dest d : Option Nat} {res r : Status} {it : Iter}
+    (hrel : Rel p dest res q d r) (h : StepInv E fut C O d r it) :
+    StepInv E fut C O dest res it := by
+  cases it with
+  | cont p' d' r' => simp only [StepInv] at h ⊢; rw [← hrel.dsome]; exact h
+  | stop p' r' =>
+    simp only [StepInv] at h ⊢
+    rw [← hrel.dsome]
+    exact ⟨h.1, Live.trans hrel h.2⟩
+  | err p' e => exact h
+  | panic s => exact h
+
+/-- The padding step followed by `parse_head`. -/
+theorem padHead_inv {E fut C O} (q : Parser) (d : Option Nat) (r : Status) (hpay : q.pay = 0)
+    (h : Inv E fut d.isSome C O q r) :
+    StepInv E fut C O d r
+      (if q.pad > 0 then
+        if q.raw.length ≤ q.pad then
+          .stop { q with raw := [], g1 := q.g1 + q.raw.length, pad := q.pad - q.raw.length } r
+        else parseHead { q with raw := q.raw.drop q.pad, g1 := q.g1 + q.pad, pad := 0 } d r
+      else parseHead q d r) := by
+  obtain ⟨remC, remO, hs, hC, hO, hse⟩ := h
+  have hcore := hs.core
+  rw [hpay] at hcore
+  split
+  · rename_i hpos
+    have hne : ¬ r.streamEnd = true := fun h => by have := (hse h).2.2.2.1; omega
+    split
+    · rename_i hle
+      have hc' := hcore.adv_pad (k := q.raw.length) hle (Nat.le_refl _) q.state
+      rw [List.drop_length] at hc'
+      refine ⟨Inv.step hC hO hne (d := []) (o := []) (hs.of_core rfl rfl rfl ?_) ?_ rfl ?_ rfl rfl, ?_⟩
+      · show SimCore E [] q.pay (q.pad - q.raw.length) q.state fut remC remO
+        rw [hpay]; exact hc'
+      · cases d <;> simp [got]
+      · simp
+      · intro hf
+        have := hcore.full_len hf
+        omega
+    · rename_i hgt
+      have hc' := hcore.adv_pad (k := q.pad) (Nat.le_refl _) (by omega) q.state
+      refine parseHead_inv _ d r hpay rfl ?_
+      refine Inv.step hC hO hne (d := []) (o := []) (hs.of_core rfl rfl rfl ?_) ?_ rfl ?_ rfl rfl
+      · show SimCore E (q.raw.drop q.pad) q.pay 0 q.state fut remC remO
+        rw [hpay]; simpa using hc'
+      · cases d <;> simp [got]
+      · simp
+  · exact parseHead_inv q d r hpay (by omega) ⟨remC, remO, hs, hC, hO, hse⟩
+
+/-- **One iteration of the loop body keeps the invariant** and never fails. -/
+theorem iter_inv {E fut C O} (p : Parser) (dest : Option Nat) (res : Status)
+    (h : Inv E fut dest.isSome C O p res) : StepInv E fut C O dest res (iter p dest res) := by
+  unfold iter
+  by_cases hpay : p.pay > 0
+  · simp only [hpay, if_true]
+    have hp := parsePayload_inv p dest res h hpay
+    have hg := parsePayload_good p dest res
+    cases hpp : parsePayload p dest res with
+    | cont q d r =>
+      rw [hpp] at hp hg
+      obtain ⟨hrel, -, hq, -⟩ := hg
+      simp only [StepInv] at hp
+      rw [← hrel.dsome] at hp
+      exact StepInv.trans hrel (padHead_inv q d r hq hp)
+    | stop q r => rw [hpp] at hp; exact hp
+    | err q e => rw [hpp] at hp; exact hp.elim
+    | panic s => rw [hpp] at hp; exact hp.elim
+  · simp only [hpay, if_false]
+    exact padHead_inv p dest res (by omega) h
+
+/-- What the loop returns. -/
+def LoopInv (E : Env) (fut C O : Bytes) (dest : Option Nat) (res : Status) :
+    Parser × ParseRes → Prop
+  | (p', .ok st) => Inv E fut dest.isSome C O p' st ∧ Live E fut dest res st
+  | _ => False
+
+theorem LoopInv.trans {E fut C O} {p q : Parser} {dest d : Option Nat} {res r : Status}
+    {out : Parser × ParseRes} (hrel : Rel p dest res q d r) (h : LoopInv E fut C O d r out) :
+    LoopInv E fut C O dest res out := by
+  obtain ⟨p', pr⟩ := out
+  cases pr with
+  | ok st =>
+    simp only [LoopInv] at h ⊢
+    rw [← hrel.dsome]
+    exact ⟨h.1, Live.trans hrel h.2⟩
+  | err e => exact h
+  | panic s => exact h
+
+/-- **The loop keeps the invariant**, returns `Ok`, and — with nothing left to feed — stops before
+the end mark only because `dest` is full. -/
+theorem loop_inv {E fut C O} (p : Parser) (dest : Option Nat) (res : Status)
+    (h : Inv E fut dest.isSome C O p res) : LoopInv E fut C O dest res (loop p dest res) := by
+  generalize hn : p.raw.length = n
+  induction n using Nat.strongRecOn generalizing p dest res with
+  | _ n ih =>
+    rw [loop]
+    split
+    · rename_i hemp
+      refine ⟨h, fun hf => ?_⟩
+      obtain ⟨remC, remO, hs, -⟩ := h
+      have := hs.core.full_len hf
+      simp only [List.isEmpty_iff] at hemp
+      rw [hemp] at this; simp at this
+    · have hi := iter_inv p dest res h
+      have hg := iter_good p dest res
+      cases hit : iter p dest res with
+      | cont p' d' r' =>
+        rw [hit] at hi hg
+        obtain ⟨h1, h2, -⟩ := hg
+        simp only [if_pos h2]
+        simp only [StepInv] at hi
+        rw [← h1.dsome] at hi
+        exact LoopInv.trans h1 (ih _ (by omega) p' d' r' hi rfl)
+      | stop p' r' => rw [hit] at hi; exact hi
+      | err p' e => rw [hit] at hi; exact hi.elim
+      | panic s => rw [hit] at hi; exact hi.elim
+
+/-! ## One `parse` call -/
+
+/-- Stream bytes handed to the caller by one operation: what a successful `parse` wrote into `dest`,
+resp. appended to the internal stream buffer. -/
+def deliveredOp (p : Parser) : Op → Bytes
+  | .parse new dest =>
+    match p.parse new dest with
+    | (p', .ok st) =>
+      (match dest with
+       | some _ => st.delivered
+       | none => p'.parsed.drop p.parsed.length)
+    | _ => []
+  | _ => []
+
+/-- **Ledger of delivered bytes** over an operation history. -/
+def deliveredOps : Parser → List Op → Bytes
+  | _, [] => []
+  | p, op :: t => deliveredOp p op ++ deliveredOps (applyOp p op) t
+
+/-- All bytes handed to the parser by the `parse` calls of a history. -/
+def fedBytes : List Op → Bytes
+  | [] => []
+  | .parse new _ :: t => new ++ fedBytes t
+  | _ :: t => fedBytes t
+
+/-- The history contains no `set_stream` call. -/
+def NoSet (ops : List Op) : Prop := ∀ s, Op.setStream s ∉ ops
+
+theorem Sim.feed {E p new fut remC remO} (h : Sim E p (new ++ fut) remC remO) :
+    Sim E (p.feed new) fut remC remO := by
+  refine ⟨h.id, h.role, h.strm, h.mc, h.mem, h.endm, ?_⟩
+  obtain ⟨c, pd, rs, ct, hb, hc, hpd, hw, hrc, hro⟩ := h.core
+  exact ⟨c, pd, rs, ct, hb, hc, hpd, by simpa [Parser.feed] using hw, hrc, hro⟩
+
+/-- **One legal `parse` call** under the invariant: returns `Ok`; what it delivers is the next
+piece of the stream content; what it queues is the next piece of the owed replies; `stream_end`
+only with nothing remaining, the parser standing at the end mark; and, with nothing left to feed, it stops early only on a full `dest`. -/
+theorem parse_sim {E fut remC remO} {p : Parser} {new : Bytes} {dest : Option Nat}
+    (hs : Sim E p (new ++ fut) remC remO) (hcap : p.freeStart ≤ p.cap)
+    (hd : dest = none ∨ p.parsed = []) (hfree : new.length ≤ p.free) :
+    ∃ p' st remC' remO', p.parse new dest = (p', .ok st) ∧ Sim E p' fut remC' remO' ∧
+      deliveredOp p (.parse new dest) ++ remC' = remC ∧
+      C03S.outGrowth p (.parse new dest) ++ remO' = remO ∧
+      (st.streamEnd = true → remC' = [] ∧ remO' = [] ∧ p'.pay = 0 ∧ p'.pad = 0 ∧
+        p'.raw ++ fut = E.tail) ∧
+      (Full E fut → st.streamEnd = true ∨ ∃ n, dest = some n ∧ st.delivered.length = n) := by
+  have hfr := parse_frame p new dest
+  have hI : Inv E fut dest.isSome (got dest.isSome (p.feed new) (initStatus p) ++ remC)
+      (p.output ++ remO) (p.feed new) (initStatus p) := by
+    refine ⟨remC, remO, hs.feed, rfl, rfl, fun h => ?_⟩
+    simp [initStatus, hs.strm] at h
+  have hl := loop_inv (p.feed new) dest (initStatus p) hI
+  rw [← parse_eq_loop p new dest hcap hd hfree] at hl
+  cases hp : p.parse new dest with
+  | mk p' pr =>
+    rw [hp] at hl hfr
+    cases pr with
+    | err e => exact hl.elim
+    | panic s => exact hl.elim
+    | ok st =>
+      obtain ⟨⟨remC', remO', hs', hC, hO, hse⟩, hlive⟩ := hl
+      obtain ⟨-, -, -, -, -, ⟨o, ho⟩, ⟨x, hx⟩⟩ := hfr
+      simp only at ho hx
+      refine ⟨p', st, remC', remO', rfl, hs', ?_, ?_, hse, ?_⟩
+      · cases dest with
+        | some n =>
+          simp only [deliveredOp, hp]
+          simpa [got, initStatus] using hC
+        | none =>
+          simp only [deliveredOp, hp]
+          simp only [got, Option.isSome_none, Bool.false_eq_true, if_false, Parser.feed] at hC
+          rw [← hx] at hC ⊢
+          rw [List.append_assoc] at hC
+          rw [List.drop_left]
+          exact List.append_cancel_left hC
+      · simp only [C03S.outGrowth, hp]
+        rw [← ho] at hO ⊢
+        rw [List.append_assoc] at hO
+        rw [List.drop_left]
+        exact List.append_cancel_left hO
+      · intro hf
+        rcases hlive hf with h | ⟨h1, h2⟩
+        · exact Or.inl h
+        · cases dest with
+          | none => cases h1
+          | some n => exact Or.inr ⟨n, rfl, by simpa [initStatus] using h2⟩
+
+/-! ## Operation histories -/
+
+/-- `Q (delivered so far, this call included) (result)` holds for every `parse` call of a history. -/
+def EveryParse (Q : Bytes → ParseRes → Prop) : Bytes → Parser → List Op → Prop
+  | _, _, [] => True
+  | acc, p, op :: t =>
+    (match op with
+     | .parse new dest => Q (acc ++ deliveredOp p op) (p.parse new dest).2
+     | _ => True) ∧ EveryParse Q (acc ++ deliveredOp p op) (applyOp p op) t
+
+/-- The call returned `Ok`; the bytes delivered so far are a prefix of the stream content; and
+`stream_end` is reported only once all of it was delivered. -/
+def EndExact (content : Bytes) (D : Bytes) (r : ParseRes) : Prop :=
+  ∃ st, r = .ok st ∧ D <+: content ∧ (st.streamEnd = true → D = content)
+
+theorem EveryParse.congr {Q Q' : Bytes → ParseRes → Prop} (h : ∀ D r, Q D r → Q' D r) :
+    ∀ {acc p ops}, EveryParse Q acc p ops → EveryParse Q' acc p ops := by
+  intro acc p ops
+  induction ops generalizing acc p with
+  | nil => exact id
+  | cons op t ih =>
+    rintro ⟨h1, h2⟩
+    refine ⟨?_, ih h2⟩
+    cases op <;> first | exact h _ _ h1 | trivial
+
+/-- **The simulation over a legal operation history** (any interleaving of `parse` with any `dest`
+and any new input, `consume_stream`, `compress`, `consume_output`). -/
+theorem ops_sim {E : Env} {x : Bytes} : ∀ (ops : List Op) (p : Parser) (remC remO acc : Bytes),
+    Sim E p (fedBytes ops ++ x) remC remO → SInv p → LegalAll p ops → NoSet ops →
+    ∃ remC' remO', Sim E (applyOps p ops) x remC' remO' ∧ SInv (applyOps p ops) ∧
+      deliveredOps p ops ++ remC' = remC ∧ C03S.grownAll p ops ++ remO' = remO ∧
+      EveryParse (EndExact (acc ++ remC)) acc p ops := by
+  intro ops
+  induction ops with
+  | nil =>
+    intro p remC remO acc hs hinv _ _
+    exact ⟨remC, remO, by simpa [fedBytes] using hs, hinv, rfl, rfl, trivial⟩
+  | cons op t ih =>
+    intro p remC remO acc hs hinv hl hns
+    obtain ⟨hl1, hl2⟩ := hl
+    have hns' : NoSet t := fun s hm => hns s (List.mem_cons_of_mem _ hm)
+    have hinv' := (step_safe hinv hl1).1
+    have keep : ∀ (op' : Op), op = op' → fedBytes (op' :: t) = fedBytes t →
+        deliveredOp p op' = [] → C03S.outGrowth p op' = [] →
+        (applyOp p op').request = p.request → (applyOp p op').stream = p.stream →
+        (applyOp p op').maxConns = p.maxConns → (applyOp p op').raw = p.raw →
+        (applyOp p op').pay = p.pay → (applyOp p op').pad = p.pad →
+        (applyOp p op').state = p.state → (match op' with | .parse _ _ => False | _ => True) →
+        ∃ remC' remO', Sim E (applyOps p (op :: t)) x remC' remO' ∧ SInv (applyOps p (op :: t)) ∧
+          deliveredOps p (op :: t) ++ remC' = remC ∧ C03S.grownAll p (op :: t) ++ remO' = remO ∧
+          EveryParse (EndExact (acc ++ remC)) acc p (op :: t) := by
+      intro op' hop hfed hdel hgr e1 e2 e3 e4 e5 e6 e7 hnp
+      subst hop
+      rw [hfed] at hs
+      have hs' : Sim E (applyOp p op) (fedBytes t ++ x) remC remO :=
+        hs.of_core e1 e2 e3 (by rw [e4, e5, e6, e7]; exact hs.core)
+      obtain ⟨remC', remO', a1, a2, a3, a4, a5⟩ := ih (applyOp p op) remC remO acc hs' hinv' hl2 hns'
+      refine ⟨remC', remO', a1, a2, ?_, ?_, ?_, ?_⟩
+      · simp only [deliveredOps, hdel, List.nil_append]; exact a3
+      · simp only [C03S.grownAll, hgr, List.nil_append]; exact a4
+      · cases op <;> first | exact hnp.elim | trivial
+      · simp only [hdel, List.append_nil]; exact a5
+    cases op with
+    | parse new dest =>
+      have hs1 : Sim E p (new ++ (fedBytes t ++ x)) remC remO := by
+        simpa [fedBytes, List.append_assoc] using hs
+      obtain ⟨p', st, remC1, remO1, hp, hs', hdel, hgr, hse, -⟩ :=
+        parse_sim hs1 hinv.1 hl1.1 hl1.2
+      have hap : applyOp p (.parse new dest) = p' := by simp [applyOp, hp]
+      rw [hap] at hl2 hinv'
+      obtain ⟨remC', remO', a1, a2, a3, a4, a5⟩ :=
+        ih p' remC1 remO1 (acc ++ deliveredOp p (.parse new dest)) hs' hinv' hl2 hns'
+      refine ⟨remC', remO', by simpa [hap] using a1, by simpa [hap] using a2, ?_, ?_, ?_, ?_⟩
+      · simp only [deliveredOps, hap, List.append_assoc, a3, hdel]
+      · simp only [C03S.grownAll, hap, List.append_assoc, a4, hgr]
+      · refine ⟨st, by rw [hp], ?_, fun h => ?_⟩
+        · rw [← hdel, ← List.append_assoc]; exact List.prefix_append _ _
+        · rw [← hdel, (hse h).1, List.append_nil]
+      · rw [hap]
+        rw [← hdel, ← List.append_assoc]
+        exact a5
+    | consumeStream amt =>
+      exact keep _ rfl rfl rfl rfl rfl rfl rfl rfl rfl rfl rfl trivial
+    | compress => exact keep _ rfl rfl rfl rfl rfl rfl rfl rfl rfl rfl rfl trivial
+    | consumeOutput amt => exact keep _ rfl rfl rfl rfl rfl rfl rfl rfl rfl rfl rfl trivial
+    | setStream s => exact absurd List.mem_cons_self (hns s)
+
+/-! ## Establishing the invariant; the end position; draining into `dest` -/
+
+/-- At a record boundary in front of the stream's records the invariant holds, with all of the
+content still to be delivered and all replies still owed. -/
+theorem Sim.init {id role s mc : Nat} {tail content fut : Bytes} {body : List Rec} {p : Parser}
+    (hb : Body id s content body) (hend : EndMark id role s tail) (hmem : s ∈ inputStreams role)
+    (hid : p.request.id = id) (hrole : p.request.role = role) (hs : p.stream = some s)
+    (hmc : p.maxConns = mc) (hpay : p.pay = 0) (hpad : p.pad = 0)
+    (hw : p.raw ++ fut = serAll body ++ tail) :
+    Sim ⟨id, role, s, mc, tail⟩ p fut content (owedStream id s mc body) := by
+  refine ⟨hid, hrole, hs, hmc, hmem, hend, [], [], body, content, hb, hpay.symm, hpad.symm, ?_, ?_, ?_⟩
+  · simpa using hw
+  · rw [stateC_nil]; rfl
+  · rw [stateO_nil]; rfl
+
+theorem serAll_eq_nil {rs : List Rec} (h : serAll rs = []) : rs = [] := by
+  cases rs with
+  | nil => rfl
+  | cons r t =>
+    rw [serAll_cons] at h
+    have := congrArg List.length h
+    simp only [List.length_append, ser_length, List.length_nil] at this
+    omega
+
+/-- Standing at the end mark, nothing remains to be delivered and no reply is owed. -/
+theorem Sim.at_end {E p fut remC remO} (h : Sim E p fut remC remO) (hpay : p.pay = 0)
+    (hpad : p.pad = 0) (hw : p.raw ++ fut = E.tail) : remC = [] ∧ remO = [] := by
+  obtain ⟨c, pd, rs, ct, hb, hc, hpd, hw', hrc, hro⟩ := h.core
+  have h1 : c = [] := List.length_eq_zero_iff.1 (hc.trans hpay)
+  have h2 : pd = [] := List.length_eq_zero_iff.1 (hpd.trans hpad)
+  subst h1 h2
+  rw [hw] at hw'
+  simp only [List.nil_append] at hw'
+  have h3 : rs = [] := serAll_eq_nil (List.append_left_eq_self.1 hw'.symm)
+  subst h3
+  cases hb
+  rw [stateC_nil] at hrc
+  rw [stateO_nil] at hro
+  exact ⟨hrc, hro⟩
+
+theorem deliveredOps_append (p : Parser) (a b : List Op) :
+    deliveredOps p (a ++ b) = deliveredOps p a ++ deliveredOps (applyOps p a) b := by
+  induction a generalizing p with
+  | nil => rfl
+  | cons op t ih => simp only [List.cons_append, deliveredOps, applyOps_cons, ih, List.append_assoc]
+
+theorem applyOps_append (p : Parser) (a b : List Op) :
+    applyOps p (a ++ b) = applyOps (applyOps p a) b := by
+  simp [applyOps, List.foldl_append]
+
+theorem grownAll_append (p : Parser) (a b : List Op) :
+    C03S.grownAll p (a ++ b) = C03S.grownAll p a ++ C03S.grownAll (applyOps p a) b := by
+  induction a generalizing p with
+  | nil => rfl
+  | cons op t ih => simp only [List.cons_append, C03S.grownAll, applyOps_cons, ih, List.append_assoc]
+
+/-- `k` calls `parse(0, Some(dest))` with a `dest` of `n` bytes. -/
+def drainOps (n k : Nat) : List Op := List.replicate k (Op.parse [] (some n))
+
+/-- **Draining into caller buffers.**  With nothing left to feed, repeated `parse(0, Some(dest))`
+with `|dest| = n > 0` reaches `stream_end` after at most `|remC|` further calls, having delivered
+exactly `remC`. -/
+theorem drain_some {E : Env} {fut : Bytes} (hf : Full E fut) {n : Nat} (hn : 0 < n) :
+    ∀ (m : Nat) (p : Parser) (remC remO : Bytes), remC.length ≤ m → Sim E p fut remC remO →
+      SInv p → p.parsed = [] →
+      ∃ k, k ≤ remC.length ∧ ∃ q' st,
+        (applyOps p (drainOps n k)).parse [] (some n) = (q', .ok st) ∧ st.streamEnd = true ∧
+        deliveredOps p (drainOps n (k + 1)) = remC ∧
+        C03S.grownAll p (drainOps n (k + 1)) = remO := by
+  intro m
+  induction m with
+  | zero =>
+    intro p remC remO hm hs hinv hpar
+    have hs0 : Sim E p ([] ++ fut) remC remO := by simpa using hs
+    obtain ⟨p', st, remC', remO', hp, hs', hdel, hgr, hse, hlive⟩ :=
+      parse_sim (dest := some n) hs0 hinv.1 (Or.inr hpar) (by simp)
+    have hrc : remC = [] := List.length_eq_zero_iff.1 (by omega)
+    have hend : st.streamEnd = true := by
+      rcases hlive hf with h | ⟨n', h1, h2⟩
+      · exact h
+      · cases h1
+        have : st.delivered = [] := by
+          have h3 := hdel
+          simp only [deliveredOp, hp, hrc] at h3
+          exact (List.append_eq_nil_iff.1 h3).1
+        rw [this] at h2; simp at h2; omega
+    obtain ⟨a, b, -⟩ := hse hend
+    refine ⟨0, Nat.zero_le _, p', st, by simpa [drainOps] using hp, hend, ?_, ?_⟩
+    · simp only [drainOps, List.replicate, deliveredOps, List.append_nil]
+      rw [← hdel, a, List.append_nil]
+    · simp only [drainOps, List.replicate, C03S.grownAll, List.append_nil]
+      rw [← hgr, b, List.append_nil]
+  | succ m ih =>
+    intro p remC remO hm hs hinv hpar
+    have hs0 : Sim E p ([] ++ fut) remC remO := by simpa using hs
+    have hleg : Legal p (.parse [] (some n)) := ⟨Or.inr hpar, by simp⟩
+    obtain ⟨p', st, remC', remO', hp, hs', hdel, hgr, hse, hlive⟩ :=
+      parse_sim (dest := some n) hs0 hinv.1 (Or.inr hpar) (by simp)
+    have hap : applyOp p (.parse [] (some n)) = p' := by simp [applyOp, hp]
+    have hdv : deliveredOp p (.parse [] (some n)) = st.delivered := by simp [deliveredOp, hp]
+    rcases hlive hf with h | ⟨n', h1, h2⟩
+    · obtain ⟨a, b, -⟩ := hse h
+      refine ⟨0, Nat.zero_le _, p', st, by simpa [drainOps] using hp, h, ?_, ?_⟩
+      · simp only [drainOps, List.replicate, deliveredOps, List.append_nil]
+        rw [← hdel, a, List.append_nil]
+      · simp only [drainOps, List.replicate, C03S.grownAll, List.append_nil]
+        rw [← hgr, b, List.append_nil]
+    · cases h1
+      have hinv' : SInv p' := by rw [← hap]; exact (step_safe hinv hleg).1
+      have hpar' : p'.parsed = [] :=
+        ((C03S.counts_exact hinv.1 (Or.inr hpar) (by simp) hp).2.2.1 n rfl).1
+      have hlen : remC'.length ≤ m := by
+        have := congrArg List.length hdel
+        rw [hdv] at this
+        simp only [List.length_append] at this
+        omega
+      obtain ⟨k, hk, q', st', hq, hse', hd', hg'⟩ := ih p' remC' remO' hlen hs' hinv' hpar'
+      refine ⟨k + 1, ?_, q', st', ?_, hse', ?_, ?_⟩
+      · have := congrArg List.length hdel
+        rw [hdv] at this
+        simp only [List.length_append] at this
+        omega
+      · simpa [drainOps, List.replicate_succ, hap] using hq
+      · simp only [drainOps, List.replicate_succ, deliveredOps, hap] at hd' ⊢
+        rw [hd', hdel]
+      · simp only [drainOps, List.replicate_succ, C03S.grownAll, hap] at hg' ⊢
+        rw [hg', hgr]
 
 end Fcgi.Str
